@@ -76,6 +76,18 @@ def check_tuple(acc, pendulum, kw, absolute=False):
             acc.mismatch("total_seconds", "vs-timedelta", case, d.total_seconds(), n.total_seconds())
         if not (d == n and hash(d) == hash(n)):
             acc.mismatch("eq-hash", "vs-timedelta", case, [d == n, hash(d) == hash(n)], [True, True])
+        # positional construction follows timedelta's order (days, seconds, microseconds, milliseconds, minutes, hours, weeks)
+        pos = [kw.get(k, 0) for k in ("days", "seconds", "microseconds", "milliseconds", "minutes", "hours", "weeks")]
+        if not (y or mo):
+            for lbl, mk in (("Duration(*args)", lambda: pendulum.Duration(*pos)), ("duration(*args)", lambda: pendulum.duration(*pos))):
+                acc.c["evaluations"] += 1
+                try:
+                    hp = mk()
+                    gotp = (obs.td_us(hp), hp.hours, hp.minutes)
+                except Exception as e:  # noqa: BLE001
+                    gotp = f"raises {type(e).__name__}"
+                if gotp != (obs.td_us(d), d.hours, d.minutes):
+                    acc.mismatch("positional", lbl, case, gotp, [obs.td_us(d), d.hours, d.minutes])
         # the public helper pendulum.duration() must build the same value as the class
         h = pendulum.duration(**kw)
         acc.c["evaluations"] += 1
